@@ -161,7 +161,7 @@ def run(ctx: Ctx):
     else:
         rel, node, vals = guard
         lacking = sorted(k for k in R if re.fullmatch(r"[A-Za-z_]\w*", k) and k not in vals and k not in ("jax", "math"))
-        ctx.check(not lacking, "R19.a", "src/gotranx::reserved-name-guard", "guard covers the reserved names", f"the reserved-name guard in {rel} lacks {lacking}", f"{rel}:{node.lineno}")
+        ctx.check(not lacking, "R19.a", "src/gotranx::reserved-name-guard::coverage", "guard covers the reserved names", f"the reserved-name guard in {rel} lacks {lacking}", f"{rel}:{node.lineno}")
     ctx.extra["reserved_names"] = R
 
     ctx.rule("R19.b", "post-processing of emitted code replaces whole words only (an identifier containing `true` / `false` survives)", floor=1)
